@@ -171,7 +171,7 @@ class World(BaseWorld):
         ops = []
         # episodes: a Domain change, then a burst of file / array / build ops on that grid (so that writes, reads, caller
         # mutations and builds actually meet on one grid), 1-4 episodes per run
-        for ep in range(ro.randrange(1, 5)):
+        for ep in range(ro.randrange(1, 5) if tier != 'thorough' else ro.randrange(1, 8)):
             if ep == 0 or ro.random() < w['set_domain'] / (w['set_domain'] + w['edit_domain'] + 1e-9):
                 ops.append({'op': 'set_domain', 'domain': self.gen_domain(ro)})
             else:
